@@ -42,7 +42,9 @@ ALPH = ["a", "z", "E", "i", "s", "u", "I", "t", "A", "_", "0", "9", " ", "\t", "
 VARIANTS = [
     ("default", {}),
     ("prefix_zz", {"stropping_prefix": "zz"}),
-    ("suffix_only", {"stropping_prefix": "", "stropping_suffix": "_"}),
+    # (the affixes of these variants cannot themselves form something an encoding rule replaces: a user who configures the suffix "_"
+    #  for C++ gets "x__" for a reserved "x_", which no reserved list of that configuration forbids - the user's choice, not judged)
+    ("suffix_only", {"stropping_prefix": "", "stropping_suffix": "_q"}),
     ("no_strop_affix", {"stropping_prefix": "", "stropping_suffix": ""}),
     ("enc_U", {"encoding_prefix": "U", "whitespace_encoding_char": "w"}),
     ("enc_underscore", {"encoding_prefix": "_e"}),
@@ -50,7 +52,18 @@ VARIANTS = [
     ("reserved_extra", {"reserved_identifiers+": ["sensorq", "alphaq", "Fooq", "xa", "zz"]}),
     # type-specific reserved patterns without an 'all' entry of their own
     ("type_patterns", {"reserved_token_patterns_by_type": {"path": ["^(con|aux|nul|prn)$"], "function": ["^(mainq|setupq|a[a-z])$"]}}),
+    # differs from the shipped configuration in the pattern tables only (another reserved macro pattern, another encoding rule for enums)
+    ("macro_patterns", {"reserved_token_patterns_by_type": {"macro": ["^MYQ_[A-Z]"]}, "token_encoding_rules_by_identifier_type": {"enum": ["q{2,}"]}}),
 ]
+# C++ only: the allocator-aware constructor conventions reserve the name of the constructor's allocator parameter
+CPP_VARIANTS = [
+    ("leading_allocator", {"options": {"ctor_convention": "uses-leading-allocator", "allocator_type": "std::allocator", "allocator_include": "<memory>"}}),
+    ("trailing_allocator", {"options": {"ctor_convention": "uses-trailing-allocator", "allocator_type": "std::allocator", "allocator_include": "<memory>"}}),
+]
+
+
+def variants_of(lname):
+    return VARIANTS + (CPP_VARIANTS if lname == "cpp" else [])
 
 
 def make_lang(name, overrides):
@@ -73,6 +86,8 @@ class Predicate:
         self.reserved = set(lang.get_config_value_as_list("reserved_identifiers", default_value=[]))
         if lang.name == "py":
             self.reserved |= set(keyword.kwlist) | set(dir(builtins))
+        if lang.name == "cpp" and lang.get_option("ctor_convention", "default") != "default":
+            self.reserved.add("allocator")     # the allocator parameter of every generated constructor under these conventions
         pats = lang.get_config_value_as_dict("reserved_token_patterns_by_type", default_value={})
         self.patterns = {k: [re.compile(p) for p in v] for k, v in pats.items()}
         enc = lang.get_config_value_as_dict("token_encoding_rules_by_identifier_type", default_value={})
@@ -103,6 +118,12 @@ class Predicate:
             for p in self.patterns.get(t, []):
                 if p.match(tok):
                     return "matches reserved pattern %r of type %r" % (p.pattern, t)
+        # the encoding rules are the configuration's list of what may not appear in an identifier of this category (blanks,
+        # characters outside the identifier alphabet, C++: leading / trailing double underscores): none of it may be left
+        for t in (sorted(self.encoding) if id_type.lower() == "any" else ("all", id_type.lower())):
+            for p in self.encoding.get(t, []):
+                if p.search(tok):
+                    return "still contains what encoding rule %r of type %r replaces" % (p.pattern, t)
         return None
 
 
@@ -114,7 +135,8 @@ def seeds_for(pred, r, nrand):
     for w in words:
         out += [w, "_" + w, "__" + w, w + "_", w.upper(), w.capitalize(), "z" + w, w + "0", " " + w, w + " ", w[:-1],
                 w + w, "_" + w + "_", w.swapcase(), "zX" + w, w.replace("_", " "), w.replace("_", "__")]
-    out += ["con", "aux", "nul", "prn", "mainq", "setupq", "sensorq", "alphaq", "Fooq", "sensor", "alpha", "conq", "ab", "az", "abc",
+    out += ["allocator", "Allocator", "allocator_", "_allocator", "MYQ_A", "MYQ_FLAG", "MYQ_a", "MYQ", "myq_A", "aqqb", "qq", "aqq", "qqa", "aqb",
+            "con", "aux", "nul", "prn", "mainq", "setupq", "sensorq", "alphaq", "Fooq", "sensor", "alpha", "conq", "ab", "az", "abc",
             "isalpha", "toX", "tox", "strx", "str", "memx", "wcsx", "int8_t", "uint_t", "intx_t", "atomic_a", "memory_a",
             "cnd_a", "mtx_a", "thrd_a", "tss_a", "E1", "EA", "E", "Ea", "FE_A", "INT8_MAX", "UINT_C", "INTx_MIN", "PRIx",
             "SCNX", "LC_A", "SIGA", "SIG_A", "TIME_A", "ATOMIC_A", "memory_order_a", "_A", "__a", "_a", "___A", "_", "__",
@@ -233,6 +255,57 @@ def shard_worker(args):
     return res
 
 
+def interleaved_worker(args):
+    """Several configurations of ONE language alive in one process, asked the same (string, category) back to back in rotating
+    order: every answer is judged against the configuration that gave it (state shared between encoders shows as an answer that
+    belongs to another configuration)."""
+    lname, seed, nrand = args
+    r = random.Random("c09i/%s/%s" % (seed, lname))
+    vs = variants_of(lname)
+    langs, preds = [], []
+    for vname, ov in vs:
+        try:
+            l = make_lang(lname, ov)
+        except Exception as e:
+            return dict(error="cannot build language %s/%s: %r" % (lname, vname, e))
+        langs.append(l)
+        preds.append(Predicate(l))
+    strings = []
+    for pr in preds:
+        strings += seeds_for(pr, r, 0)[-400:]
+    strings += seeds_for(preds[0], r, nrand)
+    strings = list(dict.fromkeys(strings))
+    res = dict(lang=lname, calls=0, refs=[], refmech=collections.Counter(), unchanged_checked=0)
+    for n, s_ in enumerate(strings):
+        for idt in ID_TYPES:
+            order = list(range(len(vs)))
+            order = order[n % len(vs):] + order[:n % len(vs)]
+            if n % 2:
+                order.reverse()
+            for vi in order:
+                res["calls"] += 1
+                try:
+                    tok = langs[vi].filter_id(s_, idt)
+                except Exception:
+                    continue
+                why = preds[vi].why_bad(tok, idt)
+                if why:
+                    res["refmech"][why.split(" of ")[0][:40]] += 1
+                    if len(res["refs"]) < 12:
+                        res["refs"].append(("with several configurations of %s alive in one process, %s returned token %r for input %r type %s: %s"
+                                            % (lname, vs[vi][0], tok, s_, idt, why),
+                                            dict(lang=lname, variant=vs[vi][0], alive=[v for v, _ in vs], input=s_, id_type=idt, token=tok, why=why)))
+                elif preds[vi].why_bad(s_, idt) is None and not preds[vi].needs_encoding(s_, idt):
+                    res["unchanged_checked"] += 1
+                    if tok != s_:
+                        res["refmech"]["valid input changed"] += 1
+                        if len(res["refs"]) < 12:
+                            res["refs"].append(("with several configurations of %s alive in one process, %s changed the valid unreserved input %r (type %s) to %r"
+                                                % (lname, vs[vi][0], s_, idt, tok),
+                                                dict(lang=lname, variant=vs[vi][0], alive=[v for v, _ in vs], input=s_, id_type=idt, token=tok)))
+    return res
+
+
 def safe_sample(res):
     out = []
     for s, t in res.get("sample", []):
@@ -336,7 +409,7 @@ def run(ctx):
     ctx.rule = ("case = (language, stropping configuration, id category, input string); strings enumerated exhaustively up to length %d "
                 "over %d symbols + reserved-word variants + pattern seeds + %d random unicode strings per combination; "
                 "distinct = distinct returned tokens (non-trivial = token differs from its input, i.e. stropping/encoding acted)" % (k, len(ALPH), nrand))
-    combos = [(l, v, ov) for l in ("c", "cpp", "py") for v, ov in VARIANTS]
+    combos = [(l, v, ov) for l in ("c", "cpp", "py") for v, ov in variants_of(l)]
     jobs = [(l, v, ov, k, ctx.seed, nrand, s, nshards) for (l, v, ov) in combos for s in range(nshards)]
     results = common.pmap(shard_worker, jobs)
     tokens_by_lang = collections.defaultdict(set)
@@ -366,6 +439,17 @@ def run(ctx):
     for l, toks in tokens_by_lang.items():
         ctx.distinct_many((l, t) for t in toks)
         ctx.count("distinct_tokens[%s]" % l, len(toks))
+    for res in common.pmap(interleaved_worker, [(l, ctx.seed, ctx.pick(300, 5000)) for l in ("c", "cpp", "py")]):
+        if "error" in res:
+            ctx.inconclusive_because(res["error"])
+            continue
+        ctx.count("evaluations", res["calls"])
+        ctx.count("interleaved_configuration_calls", res["calls"])
+        ctx.count("interleaved_unchanged_checked", res["unchanged_checked"])
+        for kx, v in res["refmech"].items():
+            ctx.count("refuted[interleaved: %s]" % kx, v)
+        for what, wit in res["refs"]:
+            ctx.refute(None, what, wit)
     toolchain_check(ctx, tokens_by_lang)
     cross_process(ctx, combos, k, nrand, nshards, digests0)
     ctx.sample({"input": "if", "c/any": "_if", "py/any": "if_"})
@@ -375,6 +459,7 @@ def run(ctx):
     ctx.require("handler[c._handle_stropping_failure]", 100)
     ctx.require("handler[cpp._handle_stropping_or_encoding_failure]", 100)
     ctx.require("toolchain_tokens", 1000)
+    ctx.require("interleaved_configuration_calls", 10000)
     ctx.require("cross_process_comparisons", len(combos) * 3)
     ctx.assumptions += ["'any' is judged against the union of all types' rules (documented)", "raising any exception is acceptable",
                         "C/C++ validity: ASCII [A-Za-z_][A-Za-z0-9_]* (what the configured encoding rules aim at); Python: str.isidentifier()"]
